@@ -59,7 +59,7 @@ DEFS = [
     ("parenthesised", "#[derive(TS)] pub struct @<T> { pub a: (T), pub b: Option<(Vec<T>)> }", ["T"], {"raw": True}),
     ("reference and slice", "#[derive(TS)] pub struct @<T: 'static> { pub a: &'static T, pub b: Box<[T]>, pub c: &'static [T] }", ["T"], {"raw": True}),
 ]
-ARGS = ["i32", "String", "Inner", "Vec<u64>", "Gen<Inner>", "Option<bool>"]
+ARGS = ["i32", "String", "Inner", "Vec<u64>", "Gen<Inner>", "Option<bool>", "[u8; 64]", "(i32, [bool; 3])"]
 
 
 def build():
@@ -69,7 +69,7 @@ def build():
         base = "G%d" % dn
         nty = len(params) + len(opts.get("concrete", {}))
         insts = []
-        for an in range(3 if len(params) == 1 else 3):
+        for an in range(4):
             args = [ARGS[(an * 2 + k) % len(ARGS)] for k in range(len(params))] + list(opts.get("concrete", {}).values())
             tyargs = args
             if "order" in opts:      # declaration order of the type parameters when the concrete ones are not the last
@@ -82,7 +82,7 @@ def build():
         for k, (args, ty) in enumerate(insts):
             units.append(corpus.Unit("%sI%d" % (base, k), "pub type %sI%d = %s;" % (base, k, ty), [], serde=False, meta={"def": base, "args": args}))
     # names of argument types and defaults
-    for n, a in enumerate(ARGS + ["Vec<Inner>", "Vec<String>", "Vec<i32>", "Vec<Vec<u64>>", "Vec<Gen<Inner>>", "Vec<Option<bool>>"]):
+    for n, a in enumerate(ARGS + ["Vec<Inner>", "Vec<String>", "Vec<i32>", "Vec<Vec<u64>>", "Vec<Gen<Inner>>", "Vec<Option<bool>>", "Vec<[u8; 64]>", "Vec<(i32, [bool; 3])>"]):
         units.append(corpus.Unit("A%d" % n, "pub type A%d = %s;" % (n, a), [], serde=False, meta={"arg": a}))
     prelude = "\n".join(("" if p[4].get("raw") else "#[derive(TS)] ") + p[2] for p in plan)
     return units, plan, prelude
@@ -175,7 +175,7 @@ def run(tier):
            "samples": [{"definition": m[0], "decls": m[2][:1], "names": m[3]} for m in rmeta[:6]],
            "definitions": len(DEFS), "instantiations": sum(len(p[5]) for p in plan), "equivalence_witnesses": len(brecords),
            "exhaustive": False,
-           "rule": "each generic definition x 3 argument choices from {i32, String, Inner, Vec<u64>, Gen<Inner>, Option<bool>}; per definition TLC compares the parsed declarations of all instantiations, the parameter list with the demanded one, free names with bound names, name() with ident<arg names>; the generic declaration expanded at the arguments against decl_concrete() on witnesses both ways"}
+           "rule": "each generic definition x 4 argument choices from {i32, String, Inner, Vec<u64>, Gen<Inner>, Option<bool>, [u8; 64], (i32, [bool; 3])}; per definition TLC compares the parsed declarations of all instantiations, the parameter list with the demanded one, free names with bound names, name() with ident<arg names>; the generic declaration expanded at the arguments against decl_concrete() on witnesses both ways"}
     vlib.write_evidence(PROP, tier, "model_checking", cov,
                         ["const arguments are held fixed", "definitions are a hand-written family covering every way a parameter can be used (not TLC-enumerated)"],
                         time.time() - t0, len(v.violations))
